@@ -12,6 +12,8 @@
 package engine
 
 import (
+	"mcverif/vmap"
+
 	"crypto/sha256"
 	"encoding/binary"
 	"encoding/hex"
@@ -63,6 +65,7 @@ type Result struct {
 	Groups       map[string]int64    `json:"groups"`
 	Selftests    map[string]string   `json:"selftests"`
 	NonTrivial   int64               `json:"nontrivial"`
+	OrderRuns    int64               `json:"order_runs"` // additional executions under other map iteration orders
 	DeadlineHit  bool                `json:"deadline_hit"`
 	Replayed     bool                `json:"replayed"`
 	ReplayFailed bool                `json:"replay_failed"`
@@ -80,16 +83,19 @@ type Ctx struct {
 	replayGroup string
 	replayIndex int64
 
-	group      string
-	index      int64 // index within the group
-	res        *Result
-	journal    *os.File
-	deadline   time.Time
-	maxViol    int
-	stateCap   int
-	progress   int64
-	always     bool
-	replayDone atomic.Bool
+	group        string
+	index        int64 // index within the group
+	res          *Result
+	journal      *os.File
+	deadline     time.Time
+	maxViol      int
+	stateCap     int
+	progress     int64
+	always       bool
+	orders       []int // additional map-iteration orders every case is run under (vmap seam)
+	obs          []string
+	orderObsFail int
+	replayDone   atomic.Bool
 }
 
 // Progress is read by the worker watchdog.
@@ -108,6 +114,35 @@ func NewCtx(prop, tier string, shard, nshards int, journalPath string, budget ti
 	}
 	c.deadline = time.Now().Add(budget)
 	return c
+}
+
+// setMapOrders enables the order sweep when the property asks for it and the seam is compiled in.
+func (c *Ctx) setMapOrders(want bool, quick []int) {
+	c.res.Selftests["seam_maporder"] = fmt.Sprintf("%v (sites=%d)", vmap.On, vmap.Sites)
+	if !want {
+		return
+	}
+	if !vmap.On {
+		c.Note("map-order seam unavailable on this tree: cases run under the runtime's own map iteration order only (seam_maporder:false)")
+		vmap.Mode = vmap.Native
+		return
+	}
+	c.orders = []int{vmap.Descending, vmap.Alternating}
+	if quick != nil {
+		c.orders = quick
+	}
+	if c.Tier == "thorough" {
+		c.orders = []int{vmap.Descending, vmap.Alternating, vmap.Rotated, vmap.AlternatingOdd}
+	}
+	c.res.Bounds["map-iteration-order"] = fmt.Sprintf("every case is run under %d map iteration orders (ascending + %s) at the %d rewritten range statements of the library", 1+len(c.orders), orderNames(c.orders), vmap.Sites)
+}
+
+func orderNames(l []int) string {
+	var n []string
+	for _, m := range l {
+		n = append(n, vmap.ModeName(m))
+	}
+	return strings.Join(n, ", ")
 }
 
 func (c *Ctx) SetReplay(group string, index int64) {
@@ -213,6 +248,10 @@ func (t *T) Transitions(n int) { t.c.Transitions(n) }
 func (t *T) Validated(n int)   { t.c.Validated(n) }
 func (t *T) NonTrivial()       { t.c.NonTrivial() }
 
+// Observe records something the case computed that must not depend on the map iteration order; the engine
+// compares the observations of the runs of one case under the different orders.
+func (t *T) Observe(s string) { t.c.obs = append(t.c.obs, s) }
+
 type quietT struct{}
 
 // Case runs one case if this worker owns it. desc must be JSON-marshalable and
@@ -235,7 +274,34 @@ func (c *Ctx) Case(descFn func() any, fn Check) {
 	if c.replay {
 		c.res.Replayed = true
 	}
+	vmap.Mode = vmap.Ascending
+	if !vmap.On {
+		vmap.Mode = vmap.Native
+	}
+	failMode := vmap.Mode
+	vmap.ResetSeq()
+	c.obs = c.obs[:0]
 	v := c.runOnce(fn, false)
+	obs0 := strings.Join(c.obs, "\x1e")
+	for _, m := range c.orders {
+		if v != nil {
+			break
+		}
+		vmap.Mode = m
+		vmap.ResetSeq()
+		c.obs = c.obs[:0]
+		if v = c.runOnce(fn, true); v != nil {
+			failMode = m
+			v.Detail = "under map iteration order '" + vmap.ModeName(m) + "' (the same case holds under 'ascending'): " + v.Detail
+		} else if o := strings.Join(c.obs, "\x1e"); o != obs0 {
+			failMode = m
+			v = &Violation{Clause: "map-order-dependent", Trigger: "", Detail: fmt.Sprintf("what the case observes depends on the map iteration order: under 'ascending' %q, under '%s' %q", clip(obs0), vmap.ModeName(m), clip(o))}
+			c.orderObsFail = m
+		}
+		c.res.OrderRuns++
+	}
+	vmap.Mode = failMode
+	defer func() { vmap.Mode = vmap.Ascending }()
 	if len(c.res.Samples) < 3 || (c.res.Cases%100003 == 0 && len(c.res.Samples) < 8) {
 		if d, err := json.Marshal(map[string]any{"group": c.group, "index": idx, "case": descFn()}); err == nil {
 			c.res.Samples = append(c.res.Samples, d)
@@ -257,7 +323,15 @@ func (c *Ctx) Case(descFn func() any, fn Check) {
 		confirmed = v.PreConfirmed
 	}
 	for i := 0; i < 4 && v.PreConfirmed == 0; i++ {
+		vmap.ResetSeq()
+		c.obs = c.obs[:0]
 		v2 := c.runOnce(fn, true)
+		if v.Clause == "map-order-dependent" {
+			if v2 == nil && strings.Join(c.obs, "\x1e") != obs0 {
+				confirmed++
+			}
+			continue
+		}
 		if v2 != nil && v2.Clause == v.Clause {
 			confirmed++
 		}
@@ -320,6 +394,13 @@ func PanicSite(stack string) string {
 		}
 	}
 	return "outside-protobom"
+}
+
+func clip(s string) string {
+	if len(s) > 600 {
+		return s[:600] + "…"
+	}
+	return s
 }
 
 func trimStack(s string) string {
